@@ -74,6 +74,7 @@ def check(path):
     name_of = {}
     launch_order = []
     unblock = {}  # key -> (seq, job that unblocked)
+    hs_begin_at = {}
 
     def actor_job(actor):
         # "job:Fe(Glyph(a))" / "hs:Fe(Glyph(a))" -> key; needs the disc, so resolved through name_of
@@ -133,6 +134,8 @@ def check(path):
         elif t == "poll":
             if e["at"] == "wave":
                 polls.append(n)
+        elif t == "hs_begin":
+            hs_begin_at[key_of(e["job"])] = n
         elif t == "acc":
             item = key_of(e["item"])
             name_of.setdefault(item, e["item"]["id"])
@@ -188,6 +191,7 @@ def check(path):
         return ((1 << idx[s]) | anc.get(s, 0)) if s is not None else 0
 
     deps_of = {}
+    hsanc = {}
     for k in launch_order:
         acc = launch_acc[k]
         mv, ms = matched(acc, launch_at[k])
@@ -215,6 +219,22 @@ def check(path):
             b |= (1 << idx[u]) | anc.get(u, 0)
         anc[k] = b
         deps_of[k] = (mv, ms)
+        # handlers this launch is structurally forced to come after: creation, unblocking, specific deps (which need
+        # the dependency's completion to be *handled*), inherited through every dependency
+        h = 0
+        if creator.get(k) is not None:
+            h |= (1 << idx[creator[k]]) | hsanc.get(creator[k], 0)
+        if k in unblock and unblock[k][0] < launch_at[k]:
+            h |= (1 << idx[unblock[k][1]]) | hsanc.get(unblock[k][1], 0)
+        for w in ms:
+            if own(w) == w:
+                h |= 1 << idx[w]
+        if acc.kind == "all":
+            for w in mv:
+                h |= 1 << idx[own(w)]
+        for w in mv + ms:
+            h |= hsanc.get(own(w), 0)
+        hsanc[k] = h
 
     def ordered(a, b):
         return (anc.get(b, 0) >> idx[a]) & 1 or (anc.get(a, 0) >> idx[b]) & 1
@@ -328,6 +348,50 @@ def check(path):
                     viol.append({"kind": "predicted-race", "item": name_of[item], "a": name_of[k], "b": name_of[o], "poll": m,
                                  "what": f"{name_of[k]} could already be launched at poll n={m} (read access then satisfied by jobs merely launched), "
                                          f"where its access to {name_of[item]} is not ordered with {name_of[o]}"})
+    # ---- dynamic-dependency rule: a job W created while handling S; every job J ordered after W only by a
+    # dependency that matches W must be unable to launch before hs(S) has inserted W
+    def access_before(k, seq):
+        cur = None
+        for s_, a, _by in acc_hist[k]:
+            if s_ < seq:
+                cur = a
+        return cur
+    for w_job, s_job in creator.items():
+        if s_job is None or kind.get(w_job) == "also" or w_job not in job_accesses or s_job not in hs_begin_at:
+            continue
+        hb = hs_begin_at[s_job]
+        for item, r, wr in job_accesses[w_job]:
+            others = set(writers[item]) | (set(readers[item]) if wr else set())
+            for j in others:
+                if j == w_job or not ((anc.get(j, 0) >> idx[w_job]) & 1):
+                    continue  # only pairs really ordered W => J
+                if ins_at[j] > hb:
+                    continue  # inserted by/after the handler
+                stats["dynamic_pairs_examined"] += 1
+                a_pre = access_before(j, hb)
+                if a_pre is None or a_pre.kind in ("unknown", "all"):
+                    continue
+                mv0, ms0 = matched(a_pre, hb)
+                safe = s_job in ms0
+                if not safe:
+                    for d in mv0 + ms0:
+                        o = own(d)
+                        if o != j and (hsanc.get(o, 0) >> idx[s_job]) & 1:
+                            safe = True
+                            break
+                if not safe and (hsanc.get(j, 0) >> idx[s_job]) & 1 and creator.get(j) is not None:
+                    safe = True
+                if safe:
+                    continue
+                sigv = (j, w_job, item)
+                if sigv in predicted:
+                    continue
+                predicted.add(sigv)
+                viol.append({"kind": "predicted-race", "item": name_of[item], "a": name_of[j], "b": name_of[w_job], "poll": hb,
+                             "what": f"{name_of[j]} accesses {name_of[item]} of {name_of[w_job]}, a job only created while handling {name_of[s_job]}; "
+                                     f"with the read access it had before that ({a_pre.sig()[0]}, matched jobs all able to finish earlier) it could be launched "
+                                     f"before {name_of[w_job]} exists"})
+
     # ---- every job that ended decremented before it sent (monitor self-check) and finished
     stats["launches"] = len(launch_order)
     stats["polls"] = len(polls)
